@@ -22,6 +22,7 @@ func init() {
 			{ID: "C19.1", Desc: "index append is de-duplicated by response id", Run: ruleC19_1, MinSites: 1},
 			{ID: "C19.2", Desc: "invalidation is complete", Run: func(c *Ctx) { ruleC07_4(c); renameRule(c, "C07.4", "C19.2") }, MinSites: 4},
 			{ID: "C19.3", Desc: "ids are a function of key and selecting values", Run: func(c *Ctx) { ruleIDPure(c, "C19.3") }, MinSites: 1},
+			{ID: "C19.7", Desc: "the index reader hands out every listed reference (only null elements are dropped)", Run: ruleC19_7, MinSites: 1},
 			{ID: "C19.5", Desc: "values written to the JSON index survive the encoding", Run: func(c *Ctx) { ruleIndexValuesUTF8Safe(c, "C19.5") }, MinSites: 1},
 		},
 	})
@@ -298,15 +299,23 @@ func (an *Analysis) dependsOnSearch(cond ssa.Value, sr *ssa.Function) bool {
 		}
 		return false
 	}
-	cmpIn := func(f *ssa.Function) bool {
+	var cmpInD func(f *ssa.Function, depth int) bool
+	cmpInD = func(f *ssa.Function, depth int) bool {
 		found := false
 		instrsOf(f, func(in ssa.Instruction) {
 			if b, ok := in.(*ssa.BinOp); ok && (b.Op == token.EQL || b.Op == token.NEQ) && (isIDLoad(b.X) || isIDLoad(b.Y)) {
 				found = true
 			}
+			// a bound-method wrapper or a small adapter: look at what it calls
+			if cc := callOf(in); cc != nil && depth < 2 {
+				if sc := cc.StaticCallee(); sc != nil && len(sc.Blocks) > 0 && an.P.IsRepoFunc(sc) && cmpInD(sc, depth+1) {
+					found = true
+				}
+			}
 		})
 		return found
 	}
+	cmpIn := func(f *ssa.Function) bool { return cmpInD(f, 0) }
 	blockCompares := func(b *ssa.BasicBlock) bool {
 		for _, in := range b.Instrs {
 			if bo, ok := in.(*ssa.BinOp); ok && (bo.Op == token.EQL || bo.Op == token.NEQ) && (isIDLoad(bo.X) || isIDLoad(bo.Y)) {
@@ -771,6 +780,38 @@ func ruleC20_6(c *Ctx) {
 	if n == 0 {
 		c.Undecided("C20.6", "vacuity", "the spawn passes a request", "no *http.Request argument at the go statement")
 	}
+	// the validators are read from the stored header as it was stored: nothing is deleted from that header before the
+	// conditional-request builder has run (a qualified no-cache may nominate ETag / Last-Modified themselves)
+	var condCalls, dels []ssa.Instruction
+	instrsOf(swr, func(in ssa.Instruction) {
+		if cc := callOf(in); cc != nil && cc.StaticCallee() == c.A.F("cond") {
+			condCalls = append(condCalls, in)
+		}
+		if c.An.IsStripFields(in) {
+			dels = append(dels, in)
+		}
+		if cc := callOf(in); cc != nil && callIsMethod(cc, "net/http", "Header", "Del") {
+			if rv, _ := recvAndArgs(cc); c.An.HeaderClass(rv) == "rs" {
+				dels = append(dels, in)
+			}
+		}
+	})
+	early := ""
+	for _, d := range dels {
+		for _, cc := range condCalls {
+			if instrDominates(d, cc) || instrReaches(d, cc) {
+				early = c.P.InstrPos(d) + " precedes the builder call at " + c.P.InstrPos(cc)
+			}
+		}
+	}
+	dv := "stored header fields are deleted only after the conditional request was built from them"
+	if len(condCalls) > 0 {
+		if early != "" {
+			c.Fail("C20.6", "validators-intact", dv, c.P.ShortName(swr)+": "+early+"; with stored `no-cache=\"ETag, Last-Modified\"` the validators are gone and the background revalidation is sent without If-None-Match / If-Modified-Since")
+		} else {
+			c.Pass("C20.6", "validators-intact", dv, fmt.Sprintf("%s: %d deletions, none before the builder", c.P.ShortName(swr), len(dels)))
+		}
+	}
 }
 
 func ruleC20_7(c *Ctx) {
@@ -811,4 +852,43 @@ func ruleC20_7(c *Ctx) {
 			}
 		}
 	})
+}
+
+// ruleC19_7: invalidation learns the ids to delete from the index reader. A reader that drops references by content (for
+// instance those that can never be selected, `Vary: *`) makes invalidation delete the index key and leave the dropped
+// entries behind, unreachable. In the index reader and the closures it hands to filter helpers, no decision depends on a
+// field of a reference: only a test of the element pointer against nil may drop an element.
+func ruleC19_7(c *Ctx) {
+	if !c.Need("C19.7", "readIndex") {
+		return
+	}
+	ri := c.A.F("readIndex")
+	desc := "the index reader drops no reference because of its content"
+	bad := ""
+	nFilters := 0
+	for _, g := range c.reachableFrom(ri) {
+		if g != ri && !lexicallyInside(g, ri) {
+			continue
+		}
+		instrsOf(g, func(in ssa.Instruction) {
+			// any load of a field of an index element inside the reader
+			u, ok := in.(*ssa.UnOp)
+			if !ok {
+				return
+			}
+			fa, ok := u.X.(*ssa.FieldAddr)
+			if !ok || !isPtrToNamed(fa.X.Type(), c.A.RefT) {
+				return
+			}
+			bad = fmt.Sprintf("%s: reads %s.%s of a listed reference", c.P.InstrPos(in), c.A.RefT.Obj().Name(), fieldName(fa.X.Type(), fa.Field))
+		})
+		if g != ri {
+			nFilters++
+		}
+	}
+	if bad != "" {
+		c.Fail("C19.7", "index-read-complete", desc, bad+"; references filtered out here are invisible to invalidation, which then removes the index key but not their entries (the keys stay in the store, unreachable)")
+		return
+	}
+	c.Pass("C19.7", "index-read-complete", desc, fmt.Sprintf("%s: %d filter closure(s), none reads a field of a reference", c.P.ShortName(ri), nFilters))
 }
